@@ -10,6 +10,7 @@ class Prop:
     rule = ""
     assumptions = []
     trusted_extra = []
+    coq_targets = None     # .vo files this check needs (default Properties/<pid>.vo + Model/Check<pid>.vo)
 
     def corpus(self):
         return []
